@@ -1,6 +1,7 @@
 package c12
 
 import (
+	"math"
 	"encoding/json"
 	"fmt"
 	"os"
@@ -136,6 +137,10 @@ var catalog = []patDef{
 	{"[0-9]+\\.[0-9]+", []string{"3.14", "0.5"}},
 	{"(true|false)", []string{"true", "false"}},
 	{"\\s*\\w+\\s*", []string{" pad ", "w", "  lead"}},
+	// numbers and truth values with padding: a typed capture is converted from the trimmed text when trim_space is on
+	{"\\s*[0-9.]+\\s*", []string{" 42 ", "1.5 ", "  7", "3"}},
+	{"\\s*(true|false)\\s*", []string{" true ", "false  ", " false"}},
+	{"\\s*-?[0-9]+\\t?", []string{" -12\t", "8\t", "  0"}},
 }
 
 var globals = []patDef{
@@ -221,7 +226,7 @@ func (g *grokGen) addPattern() *gen.Node {
 	return gen.NCall("add_pattern", str(name), str(regex))
 }
 
-var subjects = []string{"message", "f1", "t1", "v1", "nokey", "n1"}
+var subjects = []string{"message", "f1", "t1", "v1", "nokey", "n1", "x1"}
 
 func (g *grokGen) grokCall(fields map[string]any, tags map[string]string) []*gen.Node {
 	nItems := g.n("nitems", 1, 3)
@@ -303,6 +308,10 @@ func (g *grokGen) grokCall(fields map[string]any, tags map[string]string) []*gen
 	case "n1":
 		fields[subj] = int64(42)
 		g.feat["non-string-subject"] = true
+	case "x1":
+		// a float subject: its string form is what the pattern sees (small, large, non-finite and ordinary values)
+		fields[subj] = []any{5e-7, 1e21, math.NaN(), math.Inf(-1), 2.5, -0.0, 1e-7, 123456789012345678.0, float64(1 << 53)}[g.n("floatsubj", 0, 8)]
+		g.feat["float-subject"] = true
 	}
 	if usedInvisible {
 		g.feat["invisible-pattern"] = true
